@@ -25,6 +25,7 @@ Every request is a *history* over shared `Style` objects (the `_ansi` cache is s
                   plus `!` and the final terminal state `mask|fg|bg|link`
     c03_expected  what the specification `expectedCells` says the terminal must show, same run format
   A dangling index makes the whole request `unmodelled`.
+* c03_tokenize TAB string  the terminal's tokenizer (`AnsiTerm.tokenize`) on an arbitrary character string
 * c03_interp TAB tokens   the interpreter alone on an arbitrary token list (same token / run formats)
 -/
 namespace RichModel.Drv.C03
@@ -220,6 +221,9 @@ def handlers : List (String × (List String → String)) := [
   ("c03_toks", history fun _ _ _ toks => "ok " ++ encToks toks),
   ("c03_cells", history fun _ _ _ toks => "ok " ++ encInterp toks),
   ("c03_expected", history fun f heap op _ => "ok " ++ encCells (expectedOf f heap op)),
+  ("c03_tokenize", fun a => match a with
+    | [cs] => encToks (tokenize (decStr cs))
+    | _ => "bad-args"),
   ("c03_interp", fun a => match a with
     | [ts] => match decToks ts with
       | some ts => encInterp ts
